@@ -177,3 +177,21 @@ Proof.
         replace i with (length (inorder l) + S (i - length (inorder l) - 1))%nat at 2 by lia.
         rewrite remove_at_app_r. cbn [remove_at]. reflexivity.
 Qed.
+
+Lemma find_rank_some m k t : forall i, find_rank m k t = Some i -> exists n, nth_error (inorder t) i = Some n /\ n_key n = k.
+Proof.
+  induction t as [|l IHl n h r IHr]; intros i H; cbn [find_rank inorder] in *; [discriminate|].
+  assert (Hmid : nth_error (inorder l ++ n :: inorder r) (size l) = Some n).
+  { rewrite size_inorder, nth_error_app2 by lia. rewrite Nat.sub_diag. reflexivity. }
+  destruct (Z.gtb_spec k (n_key n)) as [Hgt|Hle].
+  - destruct (find_rank m k r) as [j|] eqn:Er; cbn [option_map] in H; [|discriminate]. injection H as <-.
+    destruct (IHr j eq_refl) as (x & Hx & Ek). exists x. split; auto.
+    rewrite size_inorder, nth_error_app2 by lia. replace (length (inorder l) + 1 + j - length (inorder l))%nat with (S j) by lia. exact Hx.
+  - destruct (Z.ltb_spec k (n_key n)) as [Hlt|Hge].
+    + destruct (IHl i H) as (x & Hx & Ek). exists x. split; auto. rewrite nth_error_app1; auto. apply nth_error_Some. congruence.
+    + assert (Ek : n_key n = k) by lia. destruct m.
+      * destruct (find_rank true k l) as [j|] eqn:El.
+        -- injection H as <-. destruct (IHl j eq_refl) as (x & Hx & Ex). exists x. split; auto. rewrite nth_error_app1; auto. apply nth_error_Some. congruence.
+        -- injection H as <-. exists n. auto.
+      * injection H as <-. exists n. auto.
+Qed.
